@@ -219,11 +219,40 @@ def h_setitem(ctx, shape, indices, D, P, rhs):
         ctx.eq(plain(x.data), exp, 'x%s = <%s>' % (name, rhs))
 
 
-def h_shapeop(ctx, op, shape, D, P, arg=None, cplx=False):
+def h_shapeop(ctx, op, shape, D, P, arg=None, cplx=False, operand='owned'):
+    """operand: 'owned' (fresh contiguous array) or a non-contiguous basic-indexing view of a
+    larger polynomial: 'sub' = trailing block B[1:, 1:], 'step' = B[::2, ::2], 'T' = transpose of
+    the array stored with reversed axes, 'rev' = B[::-1] (negative stride)"""
     algopy = symx.load_algopy()
     shape = tuple(shape)
-    X = V(ctx, 'x', (D, P) + shape, cplx=cplx)
-    x = mk_utpm(ctx, algopy, X, complex if cplx else float)
+    if operand == 'owned':
+        X = V(ctx, 'x', (D, P) + shape, cplx=cplx)
+        x = mk_utpm(ctx, algopy, X, complex if cplx else float)
+    else:
+        if operand == 'sub':
+            bshape = tuple(n + 1 for n in shape)
+            sl = tuple(slice(1, None) for _ in shape)
+        elif operand == 'step':
+            bshape = tuple(2 * n for n in shape)
+            sl = tuple(slice(None, None, 2) for _ in shape)
+        elif operand == 'rev':
+            bshape = shape
+            sl = tuple(slice(None, None, -1) for _ in shape)
+        elif operand == 'T':
+            bshape = shape[::-1]
+            sl = None
+        else:
+            raise KeyError(operand)
+        B = V(ctx, 'b', (D, P) + bshape, cplx=cplx)
+        big = mk_utpm(ctx, algopy, B, complex if cplx else float)
+        if sl is None:
+            x = big.T
+            X = np.transpose(B, (0, 1) + tuple(range(2, B.ndim))[::-1])
+        else:
+            x = big[sl]
+            X = B[(slice(None), slice(None)) + sl]
+        ctx.fact(tuple(x.data.shape) == (D, P) + shape, 'view operand has shape %s' % (shape,))
+        X = np.array(X, dtype=object)
     view = None
     if op == 'reshape':
         y = algopy.reshape(x, tuple(arg))
@@ -300,7 +329,7 @@ def h_shapeop(ctx, op, shape, D, P, arg=None, cplx=False):
             ctx.fact(np.shape(Y[d, p]) == ref.shape, '%s(%s) slice shape %s == %s' % (op, arg, np.shape(Y[d, p]), ref.shape))
             if np.shape(Y[d, p]) == ref.shape:
                 ctx.eq(Y[d, p], ref, '%s(%s)[%d,%d]' % (op, arg, d, p))
-    if view is not None:
+    if view is not None and operand == 'owned':
         r0 = np.zeros(shape)
         npview = np.shares_memory(np.reshape(r0, tuple(arg)) if op.startswith('reshape') else r0.T, r0)
         ctx.fact(bool(np.shares_memory(y.data, x.data)) == bool(npview), '%s returns a view like numpy' % op)
@@ -419,6 +448,19 @@ def units(tier, seed):
         add('tile/%s/reps=%s' % (shp, reps), 'h_shapeop', op='tile', shape=shp, D=D, P=P, arg=reps)
     for shp in [(3,), (3, 3), (2, 3)]:
         add('diag/%s' % (shp,), 'h_shapeop', op='diag', shape=shp, D=D, P=P)
+    # operands that are non-contiguous views of a larger polynomial
+    for operand in ('sub', 'step', 'T', 'rev'):
+        for shp in [(3, 3), (2, 3), (3,)]:
+            add('diag/%s/operand is a %s view' % (shp, operand), 'h_shapeop', op='diag', shape=shp, D=2, P=2, operand=operand)
+        for shp in [(2, 3), (3, 2)]:
+            add('trace/%s/operand is a %s view' % (shp, operand), 'h_shapeop', op='trace', shape=shp, D=2, P=2, operand=operand)
+            add('tril/%s/k=1/operand is a %s view' % (shp, operand), 'h_shapeop', op='tril', shape=shp, D=2, P=2, arg=1, operand=operand)
+            add('triu/%s/k=-1/operand is a %s view' % (shp, operand), 'h_shapeop', op='triu', shape=shp, D=2, P=2, arg=-1, operand=operand)
+            add('sum/%s/axis=0/operand is a %s view' % (shp, operand), 'h_shapeop', op='sum', shape=shp, D=2, P=2, arg=0, operand=operand)
+            add('sum/%s/axis=None/operand is a %s view' % (shp, operand), 'h_shapeop', op='sum', shape=shp, D=2, P=2, arg=None, operand=operand)
+            add('tile/%s/(2,1)/operand is a %s view' % (shp, operand), 'h_shapeop', op='tile', shape=shp, D=2, P=2, arg=(2, 1), operand=operand)
+            add('neg/%s/operand is a %s view' % (shp, operand), 'h_shapeop', op='neg', shape=shp, D=2, P=2, operand=operand)
+            add('reshape/%s->(6,)/operand is a %s view' % (shp, operand), 'h_shapeop', op='reshape', shape=shp, D=2, P=2, arg=(6,), operand=operand)
     for shp in [(3, 3), (2, 3), (3, 2)]:
         for k in (-1, 0, 1, 2):
             add('tril/%s/k=%d' % (shp, k), 'h_shapeop', op='tril', shape=shp, D=D, P=P, arg=k)
